@@ -162,7 +162,91 @@ def check_inplace(ctx, case):
         root = new_root
 
 
+def check_focus(ctx, case):
+    """One long-lived rule object R is asked about a node A, a DIFFERENT rule then rewrites something below A in place (A's
+    object survives), and R's very next question and application concern A again - nothing else is asked of R in between,
+    so even a one-slot memo of 'the last node I classified' is stale. The value must be preserved by R's step."""
+    root = E.parse(case["text"])
+    if root is None or X.has_nonfinite(root) or E.has_huge_constant(root):
+        return
+    rules = E.rule_instances()
+    qi, mi, ri, up = case["focus"]
+    qname, Qr = rules[qi % len(rules)]
+    name, R = rules[ri % len(rules)]
+    if Qr is R or qname == "BM" or name == "BM":
+        return
+    nodes = A.inorder(root)
+    try:
+        cands = [n for n in nodes if Qr.can_apply_to(n)]
+    except Exception:
+        ctx.count("skipped:can_apply-raised(C06)")
+        return
+    cands = [n for n in cands if n.parent is not None]
+    if not cands:
+        return
+    M = cands[mi % len(cands)]
+    anc = M.parent
+    if up % 2 and anc.parent is not None:
+        anc = anc.parent
+    ctx.count("focus:walks")
+    try:
+        R.can_apply_to(anc)
+        new_root = E._root(Qr.apply_to(M).result)
+    except Exception:
+        ctx.count("skipped:apply-raised(C06)")
+        return
+    if A.audit(new_root) is not None or X.has_nonfinite(new_root) or E.has_huge_constant(new_root):
+        ctx.count("skipped:malformed-or-nonfinite-after-first-step")
+        return
+    root = new_root
+    nodes = A.inorder(root)
+    if id(anc) not in {id(x) for x in nodes}:
+        return
+    try:
+        if not R.can_apply_to(anc):
+            return
+    except Exception:
+        ctx.count("skipped:can_apply-raised(C06)")
+        return
+    n = anc
+    idx = [id(x) for x in nodes].index(id(n))
+    text = E.text_of(root)
+    is_eq = Q.is_equation(root)
+    sides = None
+    if is_eq:
+        sides = "multiset" if (A.kind(n) == "EqualExpression" and name in ("CS1", "CS0")) else [(1, 1), (2, 2)]
+    arrangement = None
+    try:
+        before = root.clone()
+    except Exception:
+        return
+    before_sig = A.sig(root)
+    before_ids = {id(x) for x in nodes}
+    det = {"tree": text, "rule": name, "arrangement": arrangement, "node": E.text_of(n), "index": idx, "first_step": [qname, E.text_of(M)], "mode": "in place; the rule was asked about this node before another rule rewrote below it"}
+    try:
+        res = R.apply_to(n).result
+        new_root = E._root(res)
+    except Exception:
+        ctx.count("skipped:apply-raised(C06)")
+        return
+    ctx.count("applications")
+    ctx.count(f"focus-applied:{name}")
+    if A.audit(new_root) is not None:
+        ctx.count("skipped:malformed-result(C07)")
+        return
+    if X.has_nonfinite(new_root) or E.has_huge_constant(new_root):
+        ctx.count("excluded_nonfinite_or_huge")
+        return
+    det["result"] = E.text_of(new_root)
+    fresh = [c for c in A.preorder(new_root) if A.kind(c) == "ConstantExpression" and id(c) not in before_ids]
+    verdict = judge(ctx, case, name, "focus", before, new_root, fresh, sides, det)
+    if verdict == "compared" and A.sig(new_root) != before_sig:
+        ctx.nontriv(("focus", case["text"], tuple(case["focus"])))
+
+
 def replay(ctx, case):
+    if "focus" in case:
+        return check_focus(ctx, case)
     if "steps" in case:
         return check_inplace(ctx, case)
     check_tree(ctx, case)
@@ -205,7 +289,21 @@ def run(ctx):
             continue
         ctx.count("evaluations")
         check_inplace(ctx, {"text": t, "steps": [[(i + 3 * k) % 11, i + k] for k in range(5)]})
+    # focused two-step histories: rule R asked about a node, another rule rewrites below it in place, R asked and applied there
+    nrules = len(E.rule_instances())
+    fstep = 16 if ctx.tier == "quick" else 2
+    for i, t in enumerate(texts):
+        if i % fstep != ctx.seed % fstep or (i // fstep) % ctx.nshards != ctx.shard:
+            continue
+        for qi in range(nrules):
+            for mi in range(2):
+                for ri in range(nrules):
+                    for up in range(2):
+                        ctx.count("evaluations")
+                        check_focus(ctx, {"text": t, "focus": [qi, mi, ri, up]})
     from hypothesis import strategies as st
 
+    foc = st.builds(lambda t, f: {"text": t, "focus": f}, G.tree_text(12), st.tuples(st.integers(0, 10), st.integers(0, 6), st.integers(0, 10), st.integers(0, 1)).map(list))
+    hyp_run(ctx, "focus", foc, check_focus, ctx.n(1500, 12000))
     walk = st.builds(lambda t, steps: {"text": t, "steps": steps}, G.tree_text(12), st.lists(st.tuples(st.integers(0, 10), st.integers(0, 40)).map(list), min_size=2, max_size=6))
     hyp_run(ctx, "in-place", walk, check_inplace, ctx.n(600, 5000))
